@@ -18,7 +18,7 @@ def fixed(fid, prop, clauses, commit, what, repro=None):
 F0 = 'an awaiting handler drains unrelated events at the queue heads inside the await window'
 known('F0', 'C05', ['C05.unrelated_in_window'], F0)
 F1 = 'in-handler await gives up after 1000 polls and returns the child still pending when a run loop had already dequeued it (and blocks on the global lock)'
-known('F1', 'C04', ['C04.child_incomplete_at_return', 'C04.descendant_incomplete', 'C04.results_not_terminal'], F1)
+fixed('F1', 'C04', ['C04.child_incomplete_at_return', 'C04.descendant_incomplete', 'C04.results_not_terminal'], '84bdfef', F1)
 F2 = 'same handler recursing >= 3 levels: the recursion guard raises inside process_event, the event never completes'
 known('F2', 'C01', ['C01.missing'], 'same handler recursing >= 3 levels: the recursion guard refuses to run the handler for the third-level event (recorded as an error result of that handler since 95060a3)', 'findings/F2_C01.json')
 F4 = 'an event accepted by several buses (forwarding / re-dispatch) signals completion after the first bus; later buses add results to the completed event'
@@ -34,20 +34,20 @@ known('F5b', 'C14', ['C14.accepted_missing', 'C14.hang', 'C14.parent_never_compl
 known('F5b', 'C15', ['C15.hang'], F5b + ' and stays started in history, wait_until_idle never returns', '')
 fixed('F9', 'C09', ['C09.event_bus'], '27bab07', 'event.event_bus returned the last bus of event_path, wrong for handlers that run after the event was forwarded')
 F11 = 'an in-flight (started) parent is evicted from a small history while its children outnumber max_history_size; upward completion cannot find it'
-known('F11', 'C13', ['C13.hang'], F11 + ' and awaiting it hangs')
+fixed('F11', 'C13', ['C13.hang'], '9cd3959', F11 + ' and awaiting it hangs')
 for p in ('C01', 'C03', 'C04', 'C07', 'C10', 'C11', 'C14', 'C15', 'C17', 'C18'):
     cl = HANG(p) + ({'C10': ['C10.event_incomplete', 'C10.result_left_nonterminal'], 'C03': ['C03.descendant_incomplete'], 'C04': ['C04.child_incomplete_at_return', 'C04.descendant_incomplete'],
                      'C14': ['C14.parent_never_completes'], 'C11': ['C11.event_incomplete'], 'C17': ['C17.C01_hang', 'C17.event_incomplete']}.get(p, []))
-    known('F11', p, cl, F11, '')
-known('F16', 'C16', ['C16.hang'], 'dispatch()/wait_until_idle() on a bus after stop() began restarts a run loop on the shut-down queue, which spins forever without sleeping (livelock; stop() itself can then cancel the wrong task)')
+    fixed('F11', p, cl, '9cd3959', F11, f'findings/F11_{p}.json' if os.path.exists(f'/verif/findings/F11_{p}.json') else '')
+fixed('F16', 'C16', ['C16.hang'], 'a2fe25b', 'dispatch()/wait_until_idle() on a bus after stop() began restarts a run loop on the shut-down queue, which spins forever without sleeping (livelock; stop() itself can then cancel the wrong task)')
 known('F20', 'C16', ['C16.handler_after_stop'], 'an event of the stopped bus whose inline processing (by an awaiting handler) had begun before stop() returned still starts its remaining handlers afterwards')
 known('F21', 'C17', ['C17.written_before_handlers_finished'], 'an event dispatched twice to the same bus is processed a second time (as a no-op) inline by its own awaiting handler, and that second processing appends its WAL line while the event\'s handler is still running')
-known('F23', 'C15', ['C15.hang', 'C15.accepted_unprocessed_at_return'], 'a handler that ends with a CancelledError of its own making (e.g. it awaited a cancelled task) is taken for cancellation of the run loop: the loop exits silently, its event never completes, queued events stay queued and a wait_until_idle() already in progress never returns')
-known('F14', 'C02', ['C02.inversion'], 'a run loop holds a dequeued event while blocked on the global lock; an awaiting handler drains a later event of that bus first')
+fixed('F23', 'C15', ['C15.hang', 'C15.accepted_unprocessed_at_return'], '453ecd1', 'a handler that ends with a CancelledError of its own making (e.g. it awaited a cancelled task) is taken for cancellation of the run loop: the loop exits silently, its event never completes, queued events stay queued and a wait_until_idle() already in progress never returns')
+fixed('F14', 'C02', ['C02.inversion'], '84bdfef', 'a run loop holds a dequeued event while blocked on the global lock; an awaiting handler drains a later event of that bus first')
 F15 = 'on a parallel_handlers bus two sibling handlers that both await children process those subtrees concurrently'
 known('F15', 'C06', ['C06.overlap'], F15)
 known('F15', 'C02', ['C02.serial_overlap'], F15 + ' (also on a serial bus reached from both)', '')
-for _f, _w in (('F1', F1), ('F4', F4), ('F5b', F5b), ('F11', F11)):
+for _f, _w in (('F4', F4), ('F5b', F5b)):
     known(_f, 'C05', ['C05.unrelated_in_window'], _w + '; the await returns the child incomplete and other handlers run before the child completes', '')
 known('F15', 'C05', ['C05.unrelated_in_window'], F15 + ', so unrelated handlers start inside an await window', '')
 known('F15', 'C04', ['C04.child_incomplete_at_return', 'C04.descendant_incomplete'], F15 + '; one polling loop takes the child the other one is waiting for', '')
